@@ -465,7 +465,8 @@ def plan_C17(ctx):
         so = os.path.join(ctx.wd, "hist-stdout-%s.txt" % prof)
         with open(so, "wb") as sof:
             import subprocess
-            p = subprocess.run([bins[prof], "hist", allh, outp, "--events", ev, "--seed", str(ctx.seed), "--reps", "20" if ctx.deep else "5"], stdout=sof, stderr=subprocess.PIPE)
+            exl = os.path.join(ctx.wd, "hist-expected-lines-%s.txt" % prof)
+            p = subprocess.run([bins[prof], "hist", allh, outp, "--events", ev, "--lines", exl, "--seed", str(ctx.seed), "--reps", "20" if ctx.deep else "5"], stdout=sof, stderr=subprocess.PIPE)
         if p.returncode != 0:
             raise ToolError("harness hist failed: " + p.stderr.decode()[-2000:])
         summary, mism = None, []
@@ -493,6 +494,13 @@ def plan_C17(ctx):
                 json.loads(ln.decode("utf-8"))
             except Exception:
                 badlines += 1
+        import collections
+        want = collections.Counter(open(exl, "rb").read().split(b"\n")[:-1])
+        got = collections.Counter(lines)
+        if want != got:
+            diff = list((got - want).items())[:3] + list((want - got).items())[:3]
+            ctx.verdicts.add({"kind": "mismatch", "why": "the lines on stdout are not exactly one line per evaluated log with the logged value's JSON text; differing lines (text, count): %r" % diff,
+                              "sc": ["C17"], "rule": "(all histories)", "data": "", "expected": "multiset of %d lines" % sum(want.values()), "actual": "multiset of %d lines" % sum(got.values()), "profile": prof}, "histories-stdout/" + prof)
         if len(lines) != summary["expected_log_lines"] or badlines:
             ctx.verdicts.add({"kind": "mismatch", "why": "stdout of the threaded run has %d lines (%d not valid JSON), the specification expects %d whole lines" % (len(lines), badlines, summary["expected_log_lines"]),
                               "sc": ["C17"], "rule": "(all histories)", "data": "", "expected": summary["expected_log_lines"], "actual": len(lines), "profile": prof}, "histories-stdout/" + prof)
